@@ -110,6 +110,13 @@ CHECKS = {
   "byte oracle (O1/O5), parsed-stream oracle (O2), [document_index, file_index, filename] (O3), eval-all vs eval and N-in-N-out (O4). Deviations are excused only by exact matchers. Held on the cases generated.",
   "YAML only; comment layouts that yaml.v3 itself re-attaches across documents are kept out of the generator.",
   "DESIGN.md §5 C10"),
+ "C18": ("exploration",
+  "Go race detector over concurrent evaluations on separate evaluators + global-state fingerprint (verif hook) after every step + history oracle: every in-process step must equal the one-shot answer of the real binary; 5x repeat of the binary",
+  "Three families: repeat (byte-identical stdout/stderr/exit over 5 runs, order-sensitive operators on >=8-key documents), history (120-160 steps re-using parser, parsed trees, decoders, encoders, printers; "
+  "each step == fresh-process answer; VerifGlobalFingerprint unchanged), schedules (G in {2,4,16} x GOMAXPROCS in {1,2,16}, start barrier, concurrent parses and evaluations; results == sequential answers; "
+  "every race report with yq frames is a violation). Evidence records overlap pairs actually observed. Held on the schedules the Go scheduler produced.",
+  "No report does not mean no race; now/shuffle/env excluded; results depend on this machine's zoneinfo.",
+  "DESIGN.md §5 C18"),
  "C19": ("exploration",
   "real-binary monitor with independent per-format readers, an independent small evaluator, strace (no read on fd 0 under -n) and failure injection at (file j, document k)",
   "Six families through the real executable: complete-or-fail with a sentinel document, injected syntax/type/encoder failures at every position, result-shape x output-format sweep for silent drops, "
